@@ -18,7 +18,7 @@ Fixpoint stmt_strings (s : stmt) : list string :=
   match s with
   | SOut l => (fix goe (l : list expr) := match l with [] => [] | x :: r => expr_strings x ++ goe r end) l
   | SIf _ t elifs f => go t ++ (fix ge (l : list (expr * list stmt)) := match l with [] => [] | (_, b) :: r => go b ++ ge r end) elifs ++ go f
-  | SFor _ _ _ b | SCallBlock _ b | SMacro _ _ b | SBlock _ b => go b
+  | SFor _ _ _ b | SCallBlock _ b | SMacro _ _ _ b | SBlock _ b => go b
   | _ => []
   end.
 Definition tmpl_strings (t : list stmt) : list string := flat_map stmt_strings t.
